@@ -165,3 +165,26 @@ func VerifH_C09_Truncate_S16() {
 	}
 	vPackLimited(m, optPos != 0, opt)
 }
+
+// VerifH_C09_Boundary: messages whose size lands within a few octets of the 512-octet floor (with and
+// without OPT), every limit: the accounting of the OPT reservation and the minimum size is exact.
+func VerifH_C09_Boundary_S8() {
+	verifrt.Unwind(60)
+	sh := verifrt.Shard()
+	m := NewMsg()
+	m.Header = vHeader()
+	m.Questions = append(m.Questions, vQuestion("q", 1)) // root question: 5 octets
+	// header 12 + question 5 + answer (11 + rd) [+ authority 11+3] : total around 512 - 11 .. 512 + 11
+	rd := 470 + sh*4 + verifrt.Choose("rd.fine", 4)
+	m.Answers = append(m.Answers, vRaw("an0", 16, rd, 1))
+	if verifrt.Bool("hasauth") {
+		m.Authorities = append(m.Authorities, vRaw("ns0", 99, 3, 1))
+	}
+	hasOpt := verifrt.Bool("hasopt")
+	var opt *RawResource
+	if hasOpt {
+		opt = vRaw("opt", TypeOPT, verifrt.Choose("opt.len", 2)*3, 1)
+		m.Additionals = append(m.Additionals, opt)
+	}
+	vPackLimited(m, hasOpt, opt)
+}
